@@ -1950,6 +1950,41 @@ impl<'g, 'r> ProgGen<'g, 'r> {
     /// statement sequences aimed at the peephole optimizer: same operand loaded/stored
     /// repeatedly, index registers changed between indexed accesses, known-immediate compares
     fn stress_pattern(&mut self, fc: &mut FnCtx) -> Vec<Stmt> {
+        let mut out = self.stress_pattern_inner(fc);
+        // (decided by a hash of what was generated, no draw: the other programs stay the same)
+        // an `||` chain whose else label is reached from every test of the chain, then the last operand tested
+        // again right there: the flags at that label are not those of the last operand
+        let v8: Vec<String> = self
+            .visible_scalars(fc, Some(true), true)
+            .into_iter()
+            .map(|x| x.0)
+            .filter(|n| n != "X" && n != "Y" && !n.starts_with("hv"))
+            .collect();
+        let h = crate::pbt::hash_str(&format!("orchain:{}:{:?}", fc.idx, out));
+        if v8.len() >= 3 && h % 6 == 0 && !fc.touched.contains("#sidefx") {
+            self.label("opt-stress:or-chain-then-retest");
+            let n = v8.len() as u64;
+            let a = v8[(h / 6 % n) as usize].clone();
+            let b = v8[((h / 6 % n) + 1 + (h / 600 % (n - 1))) as usize % v8.len()].clone();
+            let c = v8.iter().find(|x| **x != a && **x != b).cloned().unwrap();
+            let k = |i: u64| Expr::lit(1 + ((h >> (20 + 4 * i)) % 9) as i32);
+            let chain = Expr::bin(BinOp::LOr, Expr::var(&a), Expr::var(&b));
+            let inner = Stmt::If(
+                if h / 7000 % 3 == 0 { Expr::Un(UnOp::LNot, Box::new(Expr::var(&b))) } else { Expr::var(&b) },
+                Box::new(Stmt::Expr(Expr::assign(LValue::Var(c.clone()), k(0)))),
+                Some(Box::new(Stmt::Expr(Expr::assign(LValue::Var(c.clone()), k(1))))),
+            );
+            let other = Stmt::Expr(Expr::assign(LValue::Var(c.clone()), k(2)));
+            out.push(if h / 70000 % 2 == 0 {
+                Stmt::If(chain, Box::new(Stmt::Block(vec![inner])), Some(Box::new(other)))
+            } else {
+                Stmt::If(Expr::Un(UnOp::LNot, Box::new(chain)), Box::new(other), Some(Box::new(Stmt::Block(vec![inner]))))
+            });
+        }
+        out
+    }
+
+    fn stress_pattern_inner(&mut self, fc: &mut FnCtx) -> Vec<Stmt> {
         self.label("opt-stress");
         let v8: Vec<(String, Ty)> = self.visible_scalars(fc, Some(true), true).into_iter().filter(|(n, _)| n != "X" && n != "Y").collect();
         if v8.len() < 2 {
